@@ -28,8 +28,7 @@ import os
 from py2lean import (Unsupported, find_func, lean_table, span_sha, strip_doc,
                      translate_block)
 
-ROUTES_ENC = {'pack_bits': 1, 'tobytes': 2, 'Image.fromarray': 3, 'image.save': 3, 'encode_array': 4, 'get_encoder': 5,
-              'encoder.encode': 5}
+ROUTES_ENC = {'pack_bits': 1, 'tobytes': 2, 'Image.fromarray': 3, 'image.save': 3, 'encode_array': 4, 'encoder.encode': 5}
 
 
 def _uid_consts():
@@ -148,6 +147,34 @@ class Pre:
                 return r
         return None
 
+    def route_return(self, st, r):
+        """`return <route>`; with `self.handoff` set: `return (route, rows, columns, samples_per_pixel, bits_allocated,
+        bits_stored, pixel_representation)` -- for the pydicom encoder call the values are the keyword arguments of the
+        call itself (so that a wrong argument is part of the translation), otherwise the function's own variables"""
+        if not getattr(self, 'handoff', None):
+            return ast.Return(value=ast.Constant(value=r))
+        names = list(self.handoff)
+        vals = {n: ast.Name(id=n, ctx=ast.Load()) for n in names}
+        calls = [n for n in ast.walk(st) if isinstance(n, ast.Call) and ast.unparse(n.func) == 'encoder.encode']
+        if calls:
+            call = calls[0]
+            kws = {k.arg: k.value for k in call.keywords if k.arg}
+            if [ast.unparse(a) for a in call.args] != ['array']:
+                raise Unsupported('encoder.encode is no longer called with the array as its only positional argument')
+            fixed = {'number_of_frames': '1', 'photometric_interpretation': 'photometric_interpretation',
+                     'planar_configuration': 'planar_configuration'}
+            for k, want in fixed.items():
+                if k not in kws or ast.unparse(kws[k]) != want:
+                    raise Unsupported(f'encoder.encode keyword {k} is no longer {want}')
+            kwmap = {'rows': 'rows', 'cols': 'columns', 'samples_per_pixel': 'samples_per_pixel',
+                     'bits_allocated': 'bits_allocated', 'bits_stored': 'bits_stored',
+                     'pixel_representation': 'pixel_representation'}
+            for n in names:
+                if kwmap[n] not in kws:
+                    raise Unsupported(f'encoder.encode keyword {kwmap[n]} missing')
+                vals[n] = self.expr(kws[kwmap[n]])
+        return ast.Return(value=ast.Tuple(elts=[ast.Constant(value=r)] + [vals[n] for n in names], ctx=ast.Load()))
+
     def stmts(self, body):
         out = []
         for st in body:
@@ -166,12 +193,12 @@ class Pre:
         if isinstance(st, (ast.With, ast.For, ast.While)):
             r = self.route_of(st)
             if r is not None:
-                return [ast.Return(value=ast.Constant(value=r))]
+                return [self.route_return(st, r)]
             raise Unsupported(type(st).__name__)
         if isinstance(st, ast.Return):
             r = self.route_of(st)
             if r is not None:
-                return [ast.Return(value=ast.Constant(value=r))]
+                return [self.route_return(st, r)]
             return [st]
         if isinstance(st, ast.Assign) and len(st.targets) == 1:
             tgt, val = st.targets[0], st.value
@@ -187,7 +214,7 @@ class Pre:
                 name = tgt.id
                 r = self.route_of(st)
                 if r is not None:
-                    return [ast.Return(value=ast.Constant(value=r))]
+                    return [self.route_return(st, r)]
                 if name in self.drop_targets:
                     return []
                 # x = Enum(x).value
@@ -242,7 +269,7 @@ ENC_ATTRS = {
     'array.shape[0]': ('int', 'shape0'), 'array.shape[1]': ('int', 'shape1'), 'array.shape[2]': ('int', 'shape2'),
     'array.ndim': ('int', 'ndim'), 'array.dtype.kind': ('str', 'dtypeKind'),
     'array.dtype.itemsize': ('int', 'itemsize'), 'array.dtype': ('str', 'dtypeName'),
-    'array.max()': ('int', 'arrayMax'),
+    'array.max()': ('int', 'arrayMax'), 'array.min()': ('int', 'arrayMin'),
 }
 
 
@@ -257,15 +284,17 @@ def build_T13a(tree):
         if p not in have:
             raise Unsupported(f'parameter {p} no longer in encode_frame')
     body = strip_doc(fn.body)
-    pre = Pre(_repo_src(), ROUTES_ENC, drop_targets={'kwargs', 'array'})
+    pre = Pre(_repo_src(), ROUTES_ENC, drop_targets={'kwargs', 'array', 'encoder'})
+    pre.handoff = ['rows', 'cols', 'samples_per_pixel', 'bits_allocated', 'bits_stored', 'pixel_representation']
     stmts = _fix(pre.stmts(body))
     consts = {n: ('str', '"' + v + '"') for n, v in _uid_consts().items()}
     consts['bool'] = ('str', '"bool"')
     text = translate_block(
         stmts, 'encodeFrameRoute', ENC_PARAMS, ENC_ATTRS, consts=consts,
-        doc='`frame.encode_frame`: everything up to the codec hand-off.  Result = route: 1 `pack_bits(array.flatten())`, '
-            '2 `array.flatten()...tobytes()`, 3 PIL JPEG baseline, 4 openjpeg 1-bit, 5 pydicom encoder.  '
-            '`dtypeKind`/`itemsize`/`dtypeName` describe `array.dtype`, `arrayMax` is `array.max()`')
+        doc='`frame.encode_frame`: everything up to the codec hand-off.  Result = (route, rows, columns, samples per pixel, bits '
+            'allocated, bits stored, pixel representation) as handed to the codec; route: 1 `pack_bits(array.flatten())`, '
+            '2 `array.flatten()...tobytes()`, 3 PIL JPEG baseline, 4 openjpeg 1-bit, 5 pydicom encoder (its keyword arguments).  '
+            '`dtypeKind`/`itemsize`/`dtypeName` describe `array.dtype`, `arrayMax` / `arrayMin` are `array.max()` / `array.min()`')
     # tables (T13): the literal collections of the function, for the specification side
     rows = []
     for name in ('uncompressed_transfer_syntaxes', 'compressed_transfer_syntaxes'):
